@@ -14,7 +14,7 @@ def readersOf (d : Desc) : List String :=
   (if d.kind.isText then ["GetStrings"] else [])
 
 def coreFlags : List String :=
-  ["parse-writes-input", "predicates-write-input", "parsed-packet-aliases-buffer", "encode-mutates-packet",
+  ["parse-writes-input", "predicates-write-input", "parseattrs-result-aliases-buffer", "parsed-packet-aliases-buffer", "encode-mutates-packet",
    "encoded-buffer-aliases-packet", "marshal-not-repeatable", "decoders-mutate-packet",
    "decoder-results-alias-packet", "dump-mutates-packet", "dump-not-repeatable", "input-changed-at-end"]
 
@@ -42,7 +42,7 @@ def c13 (op : String) (args : List String) (impl : String) : Verdict :=
       let parsed := !impl.endsWith "unparsed"
       let model :=
         if parsed then " ".intercalate (coreFlags.map (· ++ "=0"))
-        else " ".intercalate ((coreFlags.take 2).map (· ++ "=0")) ++ " unparsed"
+        else " ".intercalate ((coreFlags.take 3).map (· ++ "=0")) ++ " unparsed"
       mk impl model
         ([noCrash impl] ++ (impl.splitOn " ").filterMap fun t =>
           match t.splitOn "=" with
